@@ -189,12 +189,23 @@ func (w *World) checkOrder(chain []Query, pool []Query) {
 			w.fail("limit-not-prefix", limitClass(n, m), "-", fmt.Sprintf("%s Limit(%d): %s", desc, n, why))
 			return
 		}
-		got, grecs, ok = w.collectUUIDs("Search.Reverse.Limit.Collect", func() *sod.Search { return mk().Reverse().Limit(n) }, false)
+		// the two modifiers commute: the order they are called in is not part of the statement
+		limitFirst := w.rng.Bool()
+		got, grecs, ok = w.collectUUIDs("Search.Reverse.Limit.Collect", func() *sod.Search {
+			if limitFirst {
+				return mk().Limit(n).Reverse()
+			}
+			return mk().Reverse().Limit(n)
+		}, false)
 		if !ok {
 			return
 		}
 		if why := prefixOK(got, grecs, revKeys, n); why != "" {
-			w.fail("limit-not-prefix", "Reverse."+limitClass(n, m), "-", fmt.Sprintf("%s Reverse().Limit(%d): %s", desc, n, why))
+			how := "Reverse()." + limitClass(n, m)
+			if limitFirst {
+				how = limitClass(n, m) + ".Reverse()"
+			}
+			w.fail("limit-not-prefix", how, "-", fmt.Sprintf("%s %s with n=%d: %s", desc, how, n, why))
 			return
 		}
 	}
